@@ -418,6 +418,25 @@ def run(ctx, rep):
                       'when slots are skipped the long-name accumulator and the entry\'s slot range must be reset '
                       'together', detail[:3])
 
+    # ---------------- T3d discarding a run empties the accumulator (not only its bookkeeping)
+    LC = facts.fns.get('fatfs::dir::LongNameBuilder::clear')
+    if LC is not None:
+        empt = [b for b, t in LC.calls() if (t.get('callee') or '').endswith(('LfnBuffer::clear', 'LfnBuffer::set_len', 'Vec::clear', 'Vec::truncate'))]
+        direct = any(s['k'] == 'assign' and s['lhs']['p'] and s['lhs']['p'][-1].get('n') == 'len' and
+                     (op_const(s['rv'].get('a', {})) or {}).get('val') == 0
+                     for bi in LC.reachable() for s in LC.blocks[bi]['stmts'] if s['k'] == 'assign' and s['rv']['k'] == 'use')
+        ok_d = direct
+        if empt:
+            reach_ = LC.reach_from([0], cut_blocks=set(empt))
+            ok_d = ok_d or not any(r in reach_ for r in LC.return_blocks())
+        if ctx.config == 'nostd' and not empt and not direct:
+            ok_d = True  # the stub builder of the build without long names has no buffer
+        rep.oblige('T3d', LC.name, ok=ok_d, nontrivial=True)
+        if not ok_d:
+            rep.violation('T3', vkey('T3', LC.name, 'clear-empties', ''), LC.loc(LC.span),
+                          'LongNameBuilder::clear does not empty the accumulated name on every path: a run that is discarded (too long, '
+                          'checksum mismatch, interrupted) is still returned as the long name of the next short entry')
+
     # ---------------- T3c every slot that does not end the call either extends the run or discards it
     procs = [b for b, t in R.calls() if (t.get('callee') or '').endswith('LongNameBuilder::process')]
     reads_ = [b for b, t in R.calls() if (t.get('callee') or '').endswith('DirEntryData::deserialize')]
